@@ -2,7 +2,10 @@
 
 package destination
 
-import "bytes"
+import (
+	"bytes"
+	"time"
+)
 
 // verifTagged: line i = tag byte + one symbolic byte (so every line is identifiable in the endpoint logs)
 func verifTagged(i int) []byte {
@@ -25,6 +28,9 @@ func verifReconnect(d *Destination) {
 	for i := 0; i < 3; i++ {
 		verifTick(verifReconnTicker())
 		verifSettle()
+	}
+	if !verifIsSymbolic() {
+		time.Sleep(200 * time.Millisecond)
 	}
 }
 
